@@ -28,6 +28,11 @@ func InitGenesis(
 	// Set genesis state
 	maxSupply := data.MaxSupply
 	k.SetMaxSupply(ctx, maxSupply)
+
+	// Restore the timestamp of the last minting block, which ExportGenesis writes
+	if !data.PrevBlockTs.IsNil() && data.PrevBlockTs.IsPositive() {
+		k.SetPrevBlockTS(ctx, data.PrevBlockTs)
+	}
 }
 
 // ExportGenesis returns a GenesisState for a given context and keeper.
